@@ -110,7 +110,9 @@ class AbstractItemEncoder(object):
 
                 if LOG:
                     LOG('encoded %svalue %s into %s' % (
-                        isConstructed and 'constructed ' or '', value, substrate
+                        isConstructed and 'constructed ' or '',
+                        asn1Spec is None and not value.isValue and repr(value) or value,
+                        substrate
                     ))
 
                 if not substrate and isConstructed and options.get('ifNotEmpty', False):
@@ -869,7 +871,8 @@ class SingleItemEncoder(object):
                 'value:\n%s' % (not options.get('defMode', True) and 'in' or '',
                                 options.get('maxChunkSize', 0),
                                 asn1Spec is None and value.prettyPrintType() or
-                                asn1Spec.prettyPrintType(), value))
+                                asn1Spec.prettyPrintType(),
+                                asn1Spec is None and not value.isValue and repr(value) or value))
 
         if self.fixedDefLengthMode is not None:
             options.update(defMode=self.fixedDefLengthMode)
